@@ -6,6 +6,7 @@ import Rtcm.Model.Reader
 import Rtcm.Model.Socket
 import Rtcm.Model.Names
 import Rtcm.Model.Layout
+import Rtcm.Model.Repr
 import Rtcm.Gen.Tables
 /-
   Line-protocol driver over the executable model (no Lemmas / Props / Mathlib imported).
@@ -152,6 +153,31 @@ def step (line : String) : String :=
         | none => "lay-nodef"
       | _ => "lay-noid"
     | _, _, _ => "bad-op"
+  | ["brepr", h] =>
+    -- repr(bytes)
+    match hexToBytes (if h = "-" then "" else h) with
+    | some bs => labelStr (bytesRepr bs)
+    | none => "bad-op"
+  | ["beval", h] =>
+    -- the bytes literal written by repr, read back
+    match hexToBytes (if h = "-" then "" else h) with
+    | some bs =>
+      (match bytesRepr bs with
+       | 98 :: q :: rest =>
+         (match parseBody q rest with
+          | some (out, []) => "ok " ++ bytesToHex out
+          | _ => "none")
+       | _ => "none")
+    | none => "bad-op"
+  | ["mrepr", l, h] =>
+    -- repr(RTCMMessage(payload=…)) and the payload eval(repr(m)) is called with
+    match l.toNat?, hexToBytes h with
+    | some l, some bs =>
+      (match construct T (some bs) l with
+       | .ok m => labelStr (msgRepr m) ++ " || " ++ (match evalReprPayload (msgRepr m) with | some p => bytesToHex p | none => "none")
+       | .lib e => "lib:" ++ libName e
+       | .foreign e => "foreign:" ++ foreignName e)
+    | _, _ => "bad-op"
   | ["parse", v, l, h] =>
     match v.toNat?, l.toNat?, hexToBytes h with
     | some v, some l, some bs => outStr msgStr (parse T bs v l)
